@@ -6,6 +6,7 @@ def main(tier, replay=None):
     if replay:
         return vk_replay("C16", replay)
     res = Result("C16", tier, "model_checking")
+    nconf = vk_conformance(tier)   # the model is compared with the real kernel before anything is concluded from it
     q = tier == "quick"
     P = 2 if q else 3
     common = ["signals=0", "verdicts=K", "reorder=1"]
@@ -27,4 +28,5 @@ def main(tier, replay=None):
                 "must wake no later than the earliest due time + 1 s")
     res.assumptions = ["virtual kernel FIFO/select semantics as measured on Linux (vk/conformance)", "calls of the three programs that touch neither todo/ nor lock/trigger commute with the other side and are not scheduling points"]
     res.require_nonzero("evaluations", "race_trigger_pulled_during_scan", "race_link_during_scan", "race_trigger_open_ENXIO_during_rearm", "readdir_sees_late_entry", "ticks", "reports_Z")
+    res.notes.append("virtual kernel vs Linux: %d operation sequences compared before this run, all agree (bin/conformance)" % nconf)
     return res.finish()
